@@ -453,9 +453,14 @@ func (c *wsConn) handleChanClose(frame frame) {
 }
 
 func (c *wsConn) handleResponse(frame frame) {
+	// Held until the response is delivered: closeInFlight (connection loss or
+	// exit) must see this request either still in flight or fully completed,
+	// including the registration of its channel sink, so that closeChans, which
+	// always runs after closeInFlight, closes every sink handed to a caller.
 	c.inflightLk.Lock()
+	defer c.inflightLk.Unlock()
+
 	req, ok := c.inflight[frame.ID]
-	c.inflightLk.Unlock()
 	if !ok {
 		log.Error("client got unknown ID in response")
 		return
@@ -484,9 +489,7 @@ func (c *wsConn) handleResponse(frame frame) {
 		ID:      frame.ID,
 		Error:   frame.Error,
 	}
-	c.inflightLk.Lock()
 	delete(c.inflight, frame.ID)
-	c.inflightLk.Unlock()
 }
 
 func (c *wsConn) handleCall(ctx context.Context, frame frame) {
@@ -761,8 +764,10 @@ func (c *wsConn) handleWsConn(ctx context.Context) {
 
 	// on close, make sure to return from all pending calls, and cancel context
 	//  on all calls we handle
-	defer c.closeInFlight()
+	// (deferred calls run in reverse order: in-flight calls are failed first,
+	// then the channel sinks are closed, as on connection loss)
 	defer c.closeChans()
+	defer c.closeInFlight()
 
 	// setup pings
 
